@@ -387,7 +387,7 @@ def run_count(blt, opts, budget=10, want_ballots=True, lowprec=None, keepE=False
                 def divw(a1, a2, round=None):
                     # one snapshot per iteration: the keep-factor updates of one iteration leave tallies, quota and surplus untouched,
                     # the next iteration's distribution changes them (an iteration that changes nothing ends the round as `stable')
-                    sig = (tuple(str(c.vote) for c in E.C), str(E.quota), str(E.surplus), str(E.residual))
+                    sig = (tuple(val(c.vote) for c in E.C), val(E.quota), val(E.surplus), val(E.residual))     # stored values, not their printed form
                     if not blockopen[0] or sig != lastsig[0]:
                         blockopen[0] = True
                         lastsig[0] = sig
